@@ -31,8 +31,8 @@ type Variant struct {
 	Readers  int
 	GMP      int
 	Points   string
-	Single   bool // one input, batch > #lines: the whole corpus is sampled inside one critical section
-	ImplSnap bool // leave --snapshot out (piped output switches it on)
+	Single   bool    // one input, batch > #lines: the whole corpus is sampled inside one critical section
+	ImplSnap bool    // leave --snapshot out (piped output switches it on)
 	CPUCap   float64 // CPU-seconds after which the run is declared spinning (0 = default)
 }
 
